@@ -218,7 +218,9 @@ def lookup_set(frames, name, visited, mode="nix"):
     return res
 
 
-def evaluate(frames: list[Frame], idx: int, name: str, visited: frozenset, mode: str = "nix"):
+def evaluate(frames: list[Frame], idx: int, name: str, visited: frozenset, mode: str = "nix",
+             top: bool = False):
+    """`top`: the binding is the one the query addresses (reached by key path, not by a lookup)."""
     fr = frames[idx]
     key = (fr.kind, id(fr.bindings), name)
     if key in visited:
@@ -244,7 +246,7 @@ def evaluate(frames: list[Frame], idx: int, name: str, visited: frozenset, mode:
             inner = env_frames + list(env.wrappers) + [_as_frame(env)]
         return evaluate(inner, len(inner) - 1, name, visited, mode)
     ctx = frames[: idx + 1] if recursive else frames[:idx]
-    if fr.kind in ("with", "plain") and not isinstance(v, int):
+    if fr.kind in ("with", "plain") and not isinstance(v, int) and not top:
         CROSSINGS[0] += 1   # a with environment / a set reached from outside, non-literal value
     if isinstance(v, Closure) and not isinstance(v.value, int):
         CROSSINGS[0] += 1
@@ -281,7 +283,7 @@ def expectation(prog: Program, path: list[str], mode: str = "nix"):
         base, kk = path[:i], path[i + 1]
         try:
             frames, v = frames_for(prog, base)
-            res = evaluate(frames, len(frames) - 1, base[-1], frozenset(), mode)
+            res = evaluate(frames, len(frames) - 1, base[-1], frozenset(), mode, top=True)
             if res[0] != "set" or kk not in res[2].bindings:
                 return ("unbound",)
             if not isinstance(res[2].bindings.get(kk), int):
@@ -304,7 +306,7 @@ def expectation(prog: Program, path: list[str], mode: str = "nix"):
         # AttributeSet.__getitem__ puts the set itself on the chain for an inherited key
         frames = frames[:-1] + [Frame("rec", frames[-1].bindings)]
     try:
-        res = evaluate(frames, len(frames) - 1, path[-1], frozenset(), mode)
+        res = evaluate(frames, len(frames) - 1, path[-1], frozenset(), mode, top=True)
     except Unbound:
         return ("unbound",)
     except Cycle:
@@ -321,7 +323,7 @@ def defining_site(prog: Program, path: list[str], mode: str = "nix"):
     (C11), or ('unbound',) / ('cycle',)."""
     frames, v = frames_for(prog, path)
     try:
-        res = evaluate(frames, len(frames) - 1, path[-1], frozenset(), mode)
+        res = evaluate(frames, len(frames) - 1, path[-1], frozenset(), mode, top=True)
     except Unbound as exc:
         # the first link is the binding at the path itself; the others are bindings on the chain
         links = getattr(exc, "links", [])[:-1]
